@@ -11,6 +11,8 @@ import TonVerif.Proofs.Wrappers
 import TonVerif.Proofs.SrcArith2
 import TonVerif.Generated.MsgLayout
 import TonVerif.Proofs.SrcMsg
+import TonVerif.Proofs.SrcMsgSer
+import TonVerif.Proofs.SrcWrap
 
 namespace TonVerif.Properties.C15
 open TonVerif TonVerif.Model TonVerif.Spec.Tlb TonVerif.Proofs.Message TonVerif.Proofs.MsgBits
@@ -705,12 +707,12 @@ example : Generated.msgInitInline 500 3 100 3 0 1 = false ∧ Generated.msgInitI
 
 end Src
 
-/-! ### the WHOLE deserialize methods (and the leaf serialisers) regenerated from the source (Generated/MsgSrc.lean)
+/-! ### the WHOLE serialize / deserialize methods regenerated from the source (Generated/MsgSrc.lean)
 
 `Generated.MsgSrc.*` are re-translated from tlb/transaction.py, tlb/account.py, tlb/block.py on every run
 (harness/translate/pytlb.py, msgsrc.py). -/
 section SrcWhole
-open TonVerif.Generated.MsgSrc TonVerif.Proofs.SrcMsg
+open TonVerif.Generated.MsgSrc TonVerif.Proofs.SrcMsg TonVerif.Proofs.SrcMsgSer
 
 /-- `c15_src_deserialize`: for EVERY slice the regenerated `MessageAny.deserialize`, `CommonMsgInfo.deserialize` (dispatch on
     `preload_bit` / `preload_bits(2)`), `InternalMsgInfo / ExternalMsgInfo / ExternalOutMsgInfo.deserialize` (tag check, field
@@ -731,41 +733,348 @@ theorem c15_src_deserialize (ops : CellOps R) :
   ⟨message_de_eq ops, info_de_eq, infoInt_de_eq, infoExtIn_de_eq, infoExtOut_de_eq, stateInit_de_eq, tickTock_de_eq, currency_de_eq,
     extra_de_eq⟩
 
-/-- `c15_src_serialize_partial`: the regenerated serialisers that build no intermediate cell object —
-    `ExtraCurrencyCollection.serialize` (`store_dict` of the dictionary root: Maybe bit + reference) and `TickTock.serialize` — are
-    the hand model's builder programs, for all inputs.
-    NOT proved (the full statement): `MessageAny_serialize ops.make m = (Message.serialize ops m).map …`, likewise for StateInit, the
-    three info classes and CurrencyCollection.  These are regenerated, validated against the library and compared with the hand
-    model by evaluation (search hook), but the hand model appends an inline piece without constructing its cell object
-    (`Message.sub`) while the code calls `end_cell()` on it; the equation needs `ops.Total` plus the builder size invariant. -/
-theorem c15_src_serialize_partial (mk : Bits → List R → Option R) :
-    (∀ o : Option R, ExtraCurrencyCollection_serialize mk o = Vm.build mk (BOp.storeMaybeRef o)) ∧
-    (∀ t : TickTock, TickTock_serialize mk t = Vm.build mk (Message.tickTockB t)) :=
-  ⟨extra_ser_eq, tickTock_ser_eq⟩
+/-- `c15_src_serialize`: **the regenerated serialisers ARE the hand model's**, for every message / state-init / currency value /
+    header (`ops.Total`: `end_cell()` of a piece with ≤ 1023 bits and ≤ 4 references does not fail for depth; `ops.Lawful`: a cell
+    shows the bits and references it was built from).  `MessageAny.serialize` as regenerated from tlb/transaction.py — header by
+    `self.info.serialize()` + `store_cell`, the Maybe / Either bits, the init inline-or-reference decision with the room reserved
+    for the body (fix F17), the body inline-or-reference decision, `end_cell()` — raises exactly when `Message.serialize` does and
+    returns the same cell; likewise `StateInit.serialize` (five Maybe fields, the tick-tock piece), `CurrencyCollection.serialize`
+    (Grams + the dictionary piece), the three `*MsgInfo.serialize` (tag, flags, addresses, value piece, fees, lt, at).  So
+    `c15_never_overflows`, `c15_serialize_is_spec_encoding`, `c15_spec_decodes`, `c15_round_trip`, `c15_state_init_serialize`,
+    `c15_currency_serialize` … speak about the regenerated code.
+    The code calls `end_cell()` on every piece before `store_cell`ing it; the hand model appends the piece's bits and refs without
+    building the cell (`Message.sub`): the two agree because every store that returns normally leaves the builder within 1023
+    bits / 4 refs (`SrcMsgSer.Safe`, `sub_bridge`). -/
+theorem c15_src_serialize (ops : CellOps R) (hl : ops.Lawful) (ht : ops.Total) :
+    (∀ m : Msg R, (MessageAny_serialize ops.make m).map (·.cell) = Message.serialize ops m) ∧
+    (∀ s : StateInit R, (StateInit_serialize ops.make s).map (·.cell) = Message.serializeStateInit ops s) ∧
+    (∀ c : Currency R, (CurrencyCollection_serialize ops.make c).map (·.cell) = Message.serializeCurrency ops c) ∧
+    (∀ i : Info R, (Info_serialize ops.make i).map (·.cell) = Message.cellOf ops (Message.infoB i)) ∧
+    (∀ a b c src dest value ihr fwd lt at_, InternalMsgInfo_serialize ops.make (Info.int a b c src dest value ihr fwd lt at_) =
+        Vm.build ops.make (Message.infoB (Info.int a b c src dest value ihr fwd lt at_))) ∧
+    (∀ src dest fee, ExternalMsgInfo_serialize ops.make (Info.extIn src dest fee : Info R) =
+        Vm.build ops.make (Message.infoB (Info.extIn src dest fee))) ∧
+    (∀ src dest lt at_, ExternalOutMsgInfo_serialize ops.make (Info.extOut src dest lt at_ : Info R) =
+        Vm.build ops.make (Message.infoB (Info.extOut src dest lt at_))) ∧
+    (∀ o : Option R, ExtraCurrencyCollection_serialize ops.make o = Vm.build ops.make (BOp.storeMaybeRef o)) ∧
+    (∀ t : TickTock, TickTock_serialize ops.make t = Vm.build ops.make (Message.tickTockB t)) :=
+  ⟨src_message_ser_eq ops hl ht, src_stateInit_ser_eq ops ht, src_currency_ser_eq ops ht, src_info_ser_eq ops ht,
+    fun a b c src dest value ihr fwd lt at_ => infoInt_ser_eq ht a b c src dest value ihr fwd lt at_,
+    fun src dest fee => infoExtIn_ser_eq src dest fee, fun src dest lt at_ => infoExtOut_ser_eq src dest lt at_,
+    extra_ser_eq, tickTock_ser_eq⟩
 
-/-- `c15_src_roundtrip_partial`: the round trip with the REGENERATED parser: under the hypotheses of `c15_round_trip` the hand
-    model's `MessageAny.serialize` returns a cell and the regenerated `MessageAny.deserialize` of that cell's content returns the
-    message.  (Full statement, not proved: the same with the regenerated serialiser, see `c15_src_serialize_partial`.) -/
-theorem c15_src_roundtrip_partial (ops : CellOps R) (hl : ops.Lawful) (ht : ops.Total) (m : Msg R) (hwf : m.info.WF)
+/-- `c15_src_never_overflows`: **the regenerated `MessageAny.serialize` never fails for lack of room**, with the tight bound of
+    `c15_never_overflows`: the header encodes into `ib` bits with `ib + 3 ≤ 1023` (`ib + 2` without a state-init), the state-init's
+    split depth is in range, the body is any cell (0..1023 bits, 0..4 refs).  The returned cell object shows exactly the bits and
+    references the method's builder held. -/
+theorem c15_src_never_overflows (ops : CellOps R) (hl : ops.Lawful) (ht : ops.Total) (m : Msg R)
     {ib : Bits} {ir : List R} (hinfo : encInfo m.info = some (ib, ir))
     (hI : ib.length + (if m.init.isSome then 3 else 2) ≤ 1023)
     (hinit : ∀ s, m.init = some s → (encStateInit s).isSome)
     (hbody : m.body.1.length ≤ 1023 ∧ m.body.2.length ≤ 4) :
-    ∃ c, Message.serialize ops m = some c ∧
-      (MessageAny_deserialize ops.view ⟨(ops.view c).1, (ops.view c).2⟩).2 = some m := by
-  obtain ⟨c, hs, hd⟩ := c15_round_trip ops hl ht m hwf hinfo hI hinit hbody
-  refine ⟨c, hs, ?_⟩
-  rw [(c15_src_deserialize ops).1]
-  exact hd
+    ∃ p, MessageAny_serialize ops.make m = some p ∧ ops.view p.cell = (p.bits, p.refs) := by
+  have h := c15_never_overflows ops hl ht m hinfo hI hinit hbody
+  rw [← src_message_ser_eq ops hl ht] at h
+  cases hp : MessageAny_serialize ops.make m with
+  | none => simp [hp] at h
+  | some p => exact ⟨p, rfl, message_built_view ops hl ht m hp⟩
 
-/-- `c15_src_never_overflows_partial`: what the regenerated code contributes to "never overflows": the parser side needs no size
-    hypothesis at all (it is the hand model's parser on every slice); the writer side is `c15_never_overflows` about the hand
-    model, tied to the source by the layout decision lines (`c15_src_layout_tests`) and by sampled correspondence. -/
-theorem c15_src_never_overflows_partial (ops : CellOps R) (c : R) :
-    (MessageAny_deserialize ops.view ⟨(ops.view c).1, (ops.view c).2⟩).2 = Message.deserialize ops c := by
-  rw [(c15_src_deserialize ops).1]
-  rfl
+/-- the bound is tight for the regenerated code too: `mBig` has a valid 1021-bit header and a state-init; the regenerated
+    `MessageAny.serialize` raises; without the state-init (`ib + 2 ≤ 1023`) it returns -/
+example : MessageAny_serialize tops.make mBig = none ∧ (MessageAny_serialize tops.make { mBig with init := none }).isSome = true := by
+  have h1 := src_message_ser_eq tops tops_lawful tops_total mBig
+  have h2 := src_message_ser_eq tops tops_lawful tops_total { mBig with init := none }
+  have e1 : (Message.serialize tops mBig).isSome = false := by decide +kernel
+  have e2 : (Message.serialize tops { mBig with init := none }).isSome = true := by decide +kernel
+  rw [← h1] at e1; rw [← h2] at e2
+  constructor
+  · cases h : MessageAny_serialize tops.make mBig with
+    | none => rfl
+    | some p => simp [h] at e1
+  · simpa using e2
+
+/-- `c15_src_roundtrip`: **regenerated serialiser, then regenerated parser = identity**, for every message in the property's
+    domain (the hypotheses of `c15_round_trip`): `MessageAny.serialize` as regenerated returns a cell, and `MessageAny.deserialize`
+    as regenerated, run on a slice of that cell (`begin_parse()` shows `ops.view cell` = the bits and references the builder held),
+    returns the message. -/
+theorem c15_src_roundtrip (ops : CellOps R) (hl : ops.Lawful) (ht : ops.Total) (m : Msg R) (hwf : m.info.WF)
+    {ib : Bits} {ir : List R} (hinfo : encInfo m.info = some (ib, ir))
+    (hI : ib.length + (if m.init.isSome then 3 else 2) ≤ 1023)
+    (hinit : ∀ s, m.init = some s → (encStateInit s).isSome)
+    (hbody : m.body.1.length ≤ 1023 ∧ m.body.2.length ≤ 4) :
+    ∃ p, MessageAny_serialize ops.make m = some p ∧
+      (MessageAny_deserialize ops.view ⟨(ops.view p.cell).1, (ops.view p.cell).2⟩).2 = some m ∧
+      (MessageAny_deserialize ops.view ⟨p.bits, p.refs⟩).2 = some m := by
+  obtain ⟨c, hs, hd⟩ := c15_round_trip ops hl ht m hwf hinfo hI hinit hbody
+  obtain ⟨p, hp, hv⟩ := c15_src_never_overflows ops hl ht m hinfo hI hinit hbody
+  have hc : p.cell = c := by
+    have := src_message_ser_eq ops hl ht m
+    rw [hp, hs] at this
+    simpa using this
+  have h1 : (MessageAny_deserialize ops.view ⟨(ops.view p.cell).1, (ops.view p.cell).2⟩).2 = some m := by
+    rw [(c15_src_deserialize ops).1, hc]; exact hd
+  refine ⟨p, hp, h1, ?_⟩
+  rw [hv] at h1; exact h1
+
+/-- non-vacuity: `m0` (extra currencies + 3-reference state-init + body with a reference: the F17 shape) meets every hypothesis -/
+example : ∃ p, MessageAny_serialize tops.make m0 = some p ∧ (MessageAny_deserialize tops.view ⟨p.bits, p.refs⟩).2 = some m0 := by
+  obtain ⟨⟨ib, ir⟩, h⟩ := Option.isSome_iff_exists.mp (show (encInfo m0.info).isSome = true by decide +kernel)
+  have hlen : Enc.nbits (encInfo m0.info) + 3 ≤ 1023 := by decide +kernel
+  rw [(enc_some_sizes h).1] at hlen
+  have hwf : m0.info.WF := by simp [m0, Info.WF, AddrWF]
+  have hinit : ∀ s, m0.init = some s → (encStateInit s).isSome := by
+    intro s hs; simp [m0] at hs; subst hs; decide +kernel
+  obtain ⟨p, hp, _, h2⟩ := c15_src_roundtrip tops tops_lawful tops_total m0 hwf h (by simpa [m0] using hlen) hinit (by simp [m0])
+  exact ⟨p, hp, h2⟩
+
+/-- `c15_src_layout_connected`: the inline / reference decisions of the regenerated WHOLE method are the regenerated decision LINES
+    (`Generated/MsgLayout.lean`, `c15_src_layout_tests`): the regenerated `MessageAny.serialize` equals the chain
+    `SrcMsgSer.serializeR` (info piece, `initR`, `bodyR`, `end_cell`), and `initR` / `bodyR` take the inline branch exactly when
+    `Generated.msgInitInline` / `Generated.msgBodyInline` hold at `available_bits = 1023 - used`, `available_refs = 4 - refs`. -/
+theorem c15_src_layout_connected (ops : CellOps R) (ht : ops.Total) (m : Msg R) (s : StateInit R) (body : Chunk R) (b : Builder R) :
+    MessageAny_serialize ops.make m = serializeR ops m ∧
+    initR ops (some s) body b =
+      ((Vm.run (BOp.storeBit true) b).bind fun b1 => (Vm.build ops.make (Message.stateInitB s)).bind fun ic =>
+        if Generated.msgInitInline (Py.Tlb.availableBits b1) (Py.Tlb.availableRefs b1) ic.bits.length ic.refs.length body.1.length body.2.length
+        then Vm.run (BOp.storeBit false ⊳ BOp.storeCell ic.bits ic.refs) b1
+        else Vm.run (BOp.storeBit true ⊳ BOp.storeRef ic.cell) b1) ∧
+    bodyR ops body b =
+      (if Generated.msgBodyInline (Py.Tlb.availableBits b) (Py.Tlb.availableRefs b) body.1.length body.2.length
+       then Vm.run (BOp.storeBit false ⊳ BOp.storeCell body.1 body.2) b
+       else (ops.make body.1 body.2).bind fun bc => Vm.run (BOp.storeBit true ⊳ BOp.storeRef bc) b) := by
+  refine ⟨message_ser_eq ops ht m, ?_, ?_⟩
+  · simp only [initR, (c15_src_layout_tests _ _ _ _ _ _).2.1, Py.Tlb.availableBits, Py.Tlb.availableRefs]
+    refine congrArg _ (funext fun b1 => congrArg _ (funext fun ic => ?_))
+    have hE : (body.2 = []) ↔ body.2.length = 0 := by cases body.2 <;> simp
+    simp only [hE, Bool.and_eq_true, Bool.or_eq_true, decide_eq_true_eq, and_assoc]
+  · simp only [bodyR, (c15_src_layout_tests _ _ 0 0 _ _).2.2, Py.Tlb.availableBits, Py.Tlb.availableRefs, Bool.and_eq_true, decide_eq_true_eq]
+    have : ((body.2.length : Int) ≤ 4 - (b.refs.length : Int)) ↔ body.2.length + b.refs.length ≤ 4 := by omega
+    simp only [this]
 
 end SrcWhole
 
+/-! ## the stand-alone wrappers regenerated from the source (Generated/WrapSrc.lean)
+
+`Generated.WrapSrc.*` are re-translated from tlb/custom/wallet.py and tlb/custom/nft.py on every run (harness/translate/wrapsrc.py):
+the constructors (`<Class>_init`, `none` = raises), `serialize`, `deserialize` of `WalletV3Data`, `WalletV4Data`,
+`HighloadWalletData`, `WalletMessage`, `NftItemData`, `NftItemSaleFees`, `NftItemSaleData`. -/
+section SrcWrappers
+open TonVerif.Generated.MsgSrc TonVerif.Generated.WrapSrc TonVerif.Proofs.SrcMsg TonVerif.Proofs.SrcMsgSer TonVerif.Proofs.SrcWrap
+
+/-- `c15_src_wrapper_defaults`: **the constructors as regenerated from the source.**  `WalletV3Data / WalletV4Data /
+    HighloadWalletData(.., wallet_id, public_key, ..)`: `public_key is None` raises; otherwise the object holds the arguments, with
+    `wallet_id` replaced by 698983191 exactly when it `is None` — every int is kept, **0 included** (`wallet_id or default` would
+    lose it).  The other constructors store their arguments unchanged (the `isinstance(.., str)` conversions of the NFT classes
+    never apply to an address value). -/
+theorem c15_src_wrapper_defaults (s lc mode : Int) (w : Option Int) (pk : Option Bytes) (k : Bytes) (p q : Option R) :
+    WalletV3Data_init s w pk = pk.map (fun k => ⟨s, w.getD 698983191, k⟩) ∧
+    WalletV4Data_init s w pk p = pk.map (fun k => ⟨s, w.getD 698983191, k, p⟩) ∧
+    HighloadWalletData_init w lc pk q = pk.map (fun k => ⟨w.getD 698983191, lc, k, q⟩) ∧
+    WalletV3Data_init s none (some k) = some ⟨s, 698983191, k⟩ ∧
+    WalletV3Data_init s (some 0) (some k) = some ⟨s, 0, k⟩ ∧
+    WalletV3Data_init s w none = none ∧
+    (∀ m : Msg R, WalletMessage_init mode m = some ⟨mode, m⟩) ∧
+    (∀ (i : Int) (c o : Addr) (r : R), NftItemData_init i c o r = some ⟨i, c, o, r⟩) ∧
+    (∀ (a : Addr) (f : Int) (b : Addr) (r : Int), NftItemSaleFees_init a f b r = some ⟨a, f, b, r⟩) ∧
+    (∀ (c : Bool) (t : Int) (m n o : Addr) (pr : Int) (f : SaleFees) (e : Bool),
+      NftItemSaleData_init c t m n o pr f e = some ⟨c, t, m, n, o, pr, f, e⟩) :=
+  ⟨v3_init s w pk, v4_init s w pk p, hl_init w lc pk q, v3_init s none (some k), v3_init s (some 0) (some k), by rw [v3_init]; rfl,
+    wm_init mode, nft_init, fees_init, sale_init⟩
+
+/-- `c15_src_wrappers`: **the regenerated `serialize` / `deserialize` of every wrapper of tlb/custom/*.py ARE the hand model's**
+    (`Model/Wrappers.lean`), for all inputs: same raise decision, same cell; the parsers (through the regenerated constructors)
+    are the same function on every slice (value and slice state afterwards).  So the `c15_wallet_*`, `c15_highload_*`,
+    `c15_wallet_message_*`, `c15_nft_item_*`, `c15_sale_*` theorems speak about the regenerated code.  `Lawful` / `Total` are needed
+    only for `WalletMessage.serialize` (it contains `MessageAny.serialize`, see `c15_src_serialize`). -/
+theorem c15_src_wrappers (ops : CellOps R) (hl : ops.Lawful) (ht : ops.Total) :
+    ((∀ w, (WalletV3Data_serialize ops.make w).map (·.cell) = Message.serializeWalletV3 ops w) ∧
+     (∀ w, (WalletV4Data_serialize ops.make w).map (·.cell) = Message.serializeWalletV4 ops w) ∧
+     (∀ w, (HighloadWalletData_serialize ops.make w).map (·.cell) = Message.serializeHighload ops w) ∧
+     (∀ w, (WalletMessage_serialize ops.make w).map (·.cell) = Message.serializeWalletMsg ops w) ∧
+     (∀ n, (NftItemData_serialize ops.make n).map (·.cell) = Message.serializeNftItem ops n) ∧
+     (∀ f, (NftItemSaleFees_serialize ops.make f).map (·.cell) = Message.serializeSaleFees ops f) ∧
+     (∀ s, (NftItemSaleData_serialize ops.make s).map (·.cell) = Message.serializeSaleData ops s)) ∧
+    (WalletV3Data_deserialize ops.view = (Message.loadWalletV3 : SOp R WalletV3) ∧
+     WalletV4Data_deserialize ops.view = (Message.loadWalletV4 : SOp R (WalletV4 R)) ∧
+     HighloadWalletData_deserialize ops.view = (Message.loadHighload : SOp R (Highload R)) ∧
+     WalletMessage_deserialize ops.view = Message.loadWalletMsg ops ∧
+     NftItemData_deserialize ops.view = (Message.loadNftItem : SOp R (NftItem R)) ∧
+     NftItemSaleFees_deserialize ops.view = (Message.loadSaleFees : SOp R SaleFees) ∧
+     NftItemSaleData_deserialize ops.view = Message.loadSaleData ops) :=
+  ⟨⟨fun w => by rw [v3_ser_eq, build_cellOf]; rfl, fun w => by rw [v4_ser_eq, build_cellOf]; rfl,
+    fun w => by rw [hl_ser_eq, build_cellOf]; rfl, wm_ser_eq ops hl ht, fun n => by rw [nft_ser_eq, build_cellOf]; rfl,
+    fun f => by rw [fees_ser_eq, build_cellOf]; rfl, sale_ser_eq ops⟩,
+   ⟨v3_de_eq, v4_de_eq, hl_de_eq, wm_de_eq ops, nft_de_eq, fees_de_eq, sale_de_eq ops⟩⟩
+
+/-- `c15_src_hash_update`: the same for `HashUpdate` of tlb/utils.py (`store_bytes(b'\\x72')` + two hashes; the parser's tag test
+    `load_bytes(1)[:1] != b'r'`): regenerated constructor, serialiser and parser = `Model/Wrappers.lean`, so `c15_hash_update_*`
+    speak about the regenerated code -/
+theorem c15_src_hash_update (ops : CellOps R) :
+    (∀ o n : Bytes, HashUpdate_init o n = some ⟨o, n⟩) ∧
+    (∀ h, (HashUpdate_serialize ops.make h).map (·.cell) = Message.serializeHashUpd ops h) ∧
+    HashUpdate_deserialize ops.view = (Message.loadHashUpdate : SOp R HashUpd) :=
+  ⟨hu_init, fun h => by rw [hu_ser_eq, build_cellOf]; rfl, hu_de_eq⟩
+
+/-- non-vacuity: `hu0` through the regenerated code -/
+example : ∃ p, HashUpdate_serialize tops.make hu0 = some p ∧
+    (HashUpdate_deserialize tops.view ⟨(tops.view p.cell).1, (tops.view p.cell).2⟩).2 = some hu0 := by
+  obtain ⟨ch, he, _, _, hser, hsome⟩ := c15_hash_update_serialize (R := T) tops tops_total hu0 (by decide) (by decide)
+  obtain ⟨c, hc⟩ := Option.isSome_iff_exists.mp hsome
+  have hd := c15_hash_update_own_parser tops c hu0 (c15_hash_update_decodes tops tops_lawful hu0 he (hser ▸ hc))
+  have h := (c15_src_hash_update tops).2.1 hu0
+  rw [hc] at h
+  cases hp : HashUpdate_serialize tops.make hu0 with
+  | none => simp [hp] at h
+  | some p =>
+    simp only [hp, Option.map_some, Option.some.injEq] at h
+    refine ⟨p, rfl, ?_⟩
+    rw [(c15_src_hash_update tops).2.2, h]
+    exact hd
+
+/-- `c15_src_wallet_v3_roundtrip`: **constructor → regenerated `serialize` → regenerated `deserialize` = the object**, the default
+    included: for `seqno < 2^32`, a 32-byte key and `wallet_id` either `None` or an int `< 2^32` (0 allowed), the constructor
+    returns the object `w` with `wallet_id` 698983191 resp. the given int, `serialize` returns a cell (320 bits, the spec
+    encoding), and `deserialize` of that cell returns `w` (through the constructor again: an int is never replaced). -/
+theorem c15_src_wallet_v3_roundtrip (ops : CellOps R) (hl : ops.Lawful) (ht : ops.Total) (seqno : Int) (wid : Option Int) (pk : Bytes)
+    (hs : 0 ≤ seqno ∧ seqno < 2 ^ 32) (hi : ∀ i, wid = some i → 0 ≤ i ∧ i < 2 ^ 32) (hk : pk.length = 32 ∧ Bytes.WF pk) :
+    ∃ w p, WalletV3Data_init seqno wid (some pk) = some w ∧ w = ⟨seqno, wid.getD 698983191, pk⟩ ∧
+      WalletV3Data_serialize ops.make w = some p ∧
+      (WalletV3Data_deserialize ops.view ⟨(ops.view p.cell).1, (ops.view p.cell).2⟩).2 = some w := by
+  refine ⟨⟨seqno, wid.getD 698983191, pk⟩, ?_⟩
+  have hw : 0 ≤ wid.getD 698983191 ∧ wid.getD 698983191 < 2 ^ 32 := by
+    cases wid with
+    | none => simp
+    | some i => simpa using hi i rfl
+  obtain ⟨ch, he, _, _, hser, hsome⟩ := c15_wallet_v3_serialize ops ht ⟨seqno, wid.getD 698983191, pk⟩ hs hw hk
+  obtain ⟨c, hc⟩ := Option.isSome_iff_exists.mp hsome
+  have hd := c15_wallet_v3_own_parser ops c _ (c15_wallet_v3_decodes ops hl _ he (hser ▸ hc))
+  have hsrc := (c15_src_wrappers ops hl ht).1.1 ⟨seqno, wid.getD 698983191, pk⟩
+  rw [hc] at hsrc
+  cases hp : WalletV3Data_serialize ops.make ⟨seqno, wid.getD 698983191, pk⟩ with
+  | none => simp [hp] at hsrc
+  | some p =>
+    simp only [hp, Option.map_some, Option.some.injEq] at hsrc
+    refine ⟨p, by rw [v3_init]; rfl, rfl, rfl, ?_⟩
+    rw [v3_de_eq, hsrc]; exact hd
+
+/-- non-vacuity / the two cases that matter: no wallet id → the default; wallet id 0 → 0 -/
+example : ∃ p, WalletV3Data_serialize tops.make ⟨5, 698983191, key7⟩ = some p ∧ WalletV3Data_init 5 none (some key7) = some ⟨5, 698983191, key7⟩ ∧
+    (WalletV3Data_deserialize tops.view ⟨(tops.view p.cell).1, (tops.view p.cell).2⟩).2 = some ⟨5, 698983191, key7⟩ := by
+  obtain ⟨w, p, h1, h2, h3, h4⟩ := c15_src_wallet_v3_roundtrip tops tops_lawful tops_total 5 none key7 (by decide) (by intro i h; cases h)
+    (by decide)
+  subst h2
+  exact ⟨p, h3, h1, h4⟩
+
+example : ∃ p, WalletV3Data_serialize tops.make ⟨5, 0, key7⟩ = some p ∧ WalletV3Data_init 5 (some 0) (some key7) = some ⟨5, 0, key7⟩ ∧
+    (WalletV3Data_deserialize tops.view ⟨(tops.view p.cell).1, (tops.view p.cell).2⟩).2 = some ⟨5, 0, key7⟩ := by
+  obtain ⟨w, p, h1, h2, h3, h4⟩ := c15_src_wallet_v3_roundtrip tops tops_lawful tops_total 5 (some 0) key7 (by decide)
+    (by intro i h; cases h; decide) (by decide)
+  subst h2
+  exact ⟨p, h3, h1, h4⟩
+
+/-- `c15_src_highload_roundtrip`: the same for `HighloadWalletData`, old queries (the dictionary root) INCLUDED — the statement that
+    failed before the fix of F23, now about the regenerated `serialize` / `deserialize` -/
+theorem c15_src_highload_roundtrip (ops : CellOps R) (hl : ops.Lawful) (ht : ops.Total) (w : Highload R)
+    (hi : 0 ≤ w.walletId ∧ w.walletId < 2 ^ 32) (hc : 0 ≤ w.lastCleaned ∧ w.lastCleaned < 2 ^ 64)
+    (hk : w.publicKey.length = 32 ∧ Bytes.WF w.publicKey) :
+    ∃ p, HighloadWalletData_serialize ops.make w = some p ∧
+      (HighloadWalletData_deserialize ops.view ⟨(ops.view p.cell).1, (ops.view p.cell).2⟩).2 = some w := by
+  obtain ⟨c, hs, _, hd⟩ := c15_highload_round_trip ops hl ht w hi hc hk
+  have hsrc := (c15_src_wrappers ops hl ht).1.2.2.1 w
+  rw [hs] at hsrc
+  cases hp : HighloadWalletData_serialize ops.make w with
+  | none => simp [hp] at hsrc
+  | some p =>
+    simp only [hp, Option.map_some, Option.some.injEq] at hsrc
+    exact ⟨p, rfl, by rw [hl_de_eq, hsrc]; exact hd⟩
+
+example : ∃ p, HighloadWalletData_serialize tops.make hq = some p ∧
+    (HighloadWalletData_deserialize tops.view ⟨(tops.view p.cell).1, (tops.view p.cell).2⟩).2 = some hq :=
+  c15_src_highload_roundtrip tops tops_lawful tops_total hq (by decide) (by decide) (by decide)
+
+/-- `c15_src_wallet_message_roundtrip`: regenerated `WalletMessage.serialize` (which runs the regenerated `MessageAny.serialize` and
+    stores the cell by reference), then regenerated `WalletMessage.deserialize` (which runs the regenerated
+    `MessageAny.deserialize` on the referenced cell) = the wallet message, under the bound of `c15_never_overflows` -/
+theorem c15_src_wallet_message_roundtrip (ops : CellOps R) (hl : ops.Lawful) (ht : ops.Total) (w : WalletMsg R)
+    (hwf : w.message.info.WF) (hmode : 0 ≤ w.sendMode ∧ w.sendMode < 256)
+    {ib : Bits} {ir : List R} (hinfo : encInfo w.message.info = some (ib, ir))
+    (hI : ib.length + (if w.message.init.isSome then 3 else 2) ≤ 1023)
+    (hinit : ∀ s, w.message.init = some s → (encStateInit s).isSome)
+    (hbody : w.message.body.1.length ≤ 1023 ∧ w.message.body.2.length ≤ 4) :
+    ∃ p, WalletMessage_serialize ops.make w = some p ∧
+      (WalletMessage_deserialize ops.view ⟨(ops.view p.cell).1, (ops.view p.cell).2⟩).2 = some w := by
+  obtain ⟨c, hs, _, hd⟩ := c15_wallet_message_round_trip ops hl ht w hwf hmode hinfo hI hinit hbody
+  have hsrc := (c15_src_wrappers ops hl ht).1.2.2.2.1 w
+  rw [hs] at hsrc
+  cases hp : WalletMessage_serialize ops.make w with
+  | none => simp [hp] at hsrc
+  | some p =>
+    simp only [hp, Option.map_some, Option.some.injEq] at hsrc
+    exact ⟨p, rfl, by rw [wm_de_eq, hsrc]; exact hd⟩
+
+end SrcWrappers
+/-! ## C06 level: addresses and headers through the regenerated message code -/
+section SrcAddr
+open TonVerif.Generated.MsgSrc TonVerif.Proofs.SrcMsg TonVerif.Proofs.SrcMsgSer TonVerif.Proofs.SrcVm
+
+/-- `c15_src_address_roundtrip` (C06 level, as used by the message classes): for every address value that has an encoding
+    (`addr_none`, `addr_extern` with `len < 512`, `val < 2^len`, `addr_std` with int8 workchain, 32-byte hash, anycast depth 1..30)
+    and is well formed (a zero-length extern address carries 0), on every builder in range with room for it, `store_address`
+    returns normally having appended exactly the encoding, and `load_address` on ANY slice that starts with those bits returns
+    the address and leaves exactly what followed. -/
+theorem c15_src_address_roundtrip (a : Addr) (hwf : AddrWF a) {c : Chunk R} (he : eAddr a = some c)
+    (b : Builder R) (hb : WFB b) (hfit : Fits b c) :
+    Vm.run (BOp.storeAddress a) b = some (app b c) ∧ c.2 = [] ∧
+    ∀ (tb : Bits) (tr : List R), (SOp.loadAddress : SOp R Addr) ⟨c.1 ++ tb, tr⟩ = (⟨tb, tr⟩, some a) := by
+  have h1 := ((appends_storeAddress a) b hb c he).1 hfit
+  have hr : c.2 = [] := by
+    have := nrefs_eAddr (R := R) a
+    rw [(enc_some_sizes he).2] at this
+    exact List.eq_nil_of_length_eq_zero (by omega)
+  refine ⟨by simp [Vm.run, h1], hr, ?_⟩
+  intro tb tr
+  have h2 := rt_addr a hwf c he tb tr
+  have h3 := ref_loadAddress (c.1 ++ tb) (c.2 ++ tr) a (tb, tr) h2
+  simpa [hr] using h3
+
+/-- `c15_src_header_roundtrip`: **every header goes through the regenerated writer and the regenerated reader unchanged**: if the
+    header has an encoding (flags, both addresses, amounts, lt / at in range) and its addresses are well formed, and the regenerated
+    `<X>MsgInfo.serialize` returns a cell, then the regenerated `CommonMsgInfo.deserialize` (tag dispatch, then the class's own
+    parser: `load_address` twice, …) on a slice of that cell returns the header — both addresses included — and leaves nothing
+    unread; followed by anything (the rest of a message), it leaves exactly that. -/
+theorem c15_src_header_roundtrip (ops : CellOps R) (ht : ops.Total) (i : Info R) (hwf : i.WF) (henc : (encInfo i).isSome)
+    {p : Vm.Built R} (h : Info_serialize ops.make i = some p) :
+    encInfo i = some (p.bits, p.refs) ∧
+    ∀ (tb : Bits) (tr : List R),
+      CommonMsgInfo_deserialize ops.view ⟨p.bits ++ tb, p.refs ++ tr⟩ = (⟨tb, tr⟩, some i) := by
+  obtain ⟨c, hc⟩ := Option.isSome_iff_exists.mp henc
+  rw [info_ser_eq ht] at h
+  obtain ⟨b, hrun, hb1, hb2, _⟩ := build_some h
+  have hfit : c.1.length ≤ 1023 ∧ c.2.length ≤ 4 := by
+    apply Classical.byContradiction
+    intro hn
+    have := ((appends_infoB i).run hc).2 hn
+    simp [Vm.run, this] at hrun
+  have hr := ((appends_infoB i).run hc).1 hfit
+  have hbc : b = ⟨c.1, c.2⟩ := by
+    simp [Vm.run, hr] at hrun; exact hrun.symm
+  have e1 : p.bits = c.1 := by rw [hb1, hbc]
+  have e2 : p.refs = c.2 := by rw [hb2, hbc]
+  refine ⟨by rw [e1, e2]; exact hc, ?_⟩
+  intro tb tr
+  rw [e1, e2, info_de_eq]
+  exact ref_loadInfo _ _ i (tb, tr) (rt_info i hwf c hc tb tr)
+
+/-- non-vacuity: the header of `m0` (anycast destination, extra currencies) -/
+example : ∃ p, Info_serialize tops.make m0.info = some p ∧
+    CommonMsgInfo_deserialize tops.view ⟨p.bits ++ [true], p.refs ++ [leaf]⟩ = (⟨[true], [leaf]⟩, some m0.info) := by
+  have henc : (encInfo m0.info).isSome := by decide +kernel
+  have hwf : m0.info.WF := by simp [m0, Info.WF, AddrWF]
+  have hs : (Message.cellOf tops (Message.infoB m0.info)).isSome = true := by decide +kernel
+  rw [← src_info_ser_eq tops tops_total] at hs
+  cases hp : Info_serialize tops.make m0.info with
+  | none => simp [hp] at hs
+  | some p => exact ⟨p, rfl, (c15_src_header_roundtrip tops tops_total m0.info hwf henc hp).2 _ _⟩
+
+end SrcAddr
 end TonVerif.Properties.C15
